@@ -57,6 +57,10 @@ def tasks(tier, seed):
                                 ts.append({"kind": "seq", "seq": list(seq), "term": term, "disp": disp, "onrec": onrec, "interval": interval, "ping": ping,
                                            "bound": (2 if tier == "quick" else 4) if (ping and disp == "builtin") else 0,
                                            "name": "%s|%s/%s/rec=%s/i=%d/ping=%s" % (",".join(seq) or "-", term, disp, onrec, interval, ping)})
+                                if k == 1 and interval == 1 and not ping:
+                                    # the handlers installed as attributes after construction (app.on_open = f) instead of constructor arguments
+                                    ts.append({"kind": "seq", "seq": list(seq), "term": term, "disp": disp, "onrec": onrec, "interval": interval, "ping": ping,
+                                               "assign_after": True, "bound": 0, "name": "%s|%s/%s/rec=%s/i=%d/handlers-assigned-later" % (",".join(seq), term, disp, onrec, interval)})
     # close() from a second thread: at every scheduling point of the loop thread (preemption) and at every phase of the
     # reconnect cycle in virtual time (connection open, during the reconnect sleep, during a failing attempt, after re-establishment)
     for disp in ("builtin",):
@@ -212,6 +216,7 @@ class Harness:
         if rel is not None:
             actions["on_close"] = lambda app, run, r=rel: r.abort()
         spec["module_reconnect"] = I if d.get("via_default") else None
+        spec["assign_after"] = bool(d.get("assign_after"))
         run = appsim.AppRun(ch, spec)
         net_hook = {}
 
